@@ -1,0 +1,78 @@
+//go:build verif
+
+// Machine-checked contracts for package cpumem (comment-only; see /verif/DESIGN.md).
+
+package cpumem
+
+//@ # node state the plugin works on (what cpumemtypes.NodeResourceInfo.Validate accepts, with bounded numbers)
+//@ pred okInfo(n *cpumemtypes.NodeResourceInfo) = n != nil && n.Capacity != nil && n.Usage != nil && n.Capacity != n.Usage
+//@        && allocated(n.Capacity) && allocated(n.Usage)
+//@        && n.Capacity.CPUMap != n.Usage.CPUMap && n.Capacity.NUMAMemory != n.Usage.NUMAMemory
+//@        && (n.Capacity.CPUMap == nil || allocated(n.Capacity.CPUMap)) && (n.Usage.CPUMap == nil || allocated(n.Usage.CPUMap))
+//@        && (n.Capacity.NUMAMemory == nil || allocated(n.Capacity.NUMAMemory)) && (n.Usage.NUMAMemory == nil || allocated(n.Usage.NUMAMemory))
+//@        && (forall k string :: -2305843009213693952 <= n.Capacity.CPUMap[k] && n.Capacity.CPUMap[k] <= 2305843009213693952)
+//@        && (forall k string :: -2305843009213693952 <= n.Usage.CPUMap[k] && n.Usage.CPUMap[k] <= 2305843009213693952)
+//@        && (forall k string :: -2305843009213693952 <= n.Capacity.NUMAMemory[k] && n.Capacity.NUMAMemory[k] <= 2305843009213693952)
+//@        && (forall k string :: -2305843009213693952 <= n.Usage.NUMAMemory[k] && n.Usage.NUMAMemory[k] <= 2305843009213693952)
+//@        && 0 <= n.Usage.Memory && n.Usage.Memory <= n.Capacity.Memory && n.Capacity.Memory <= 2305843009213693952
+
+//@ # memory-only capacity and admission as spec functions (the two sides of C07)
+//@ ghost capMem(cpuReq float64, cores int, memReq int64, avail int64) int =
+//@        real(cores) < cpuReq ? 0 : (memReq == 0 ? MaxInt : avail / memReq)
+//@ pred acceptMem(cpuReq float64, cores int, memReq int64, avail int64, d int) =
+//@        cpuReq <= real(cores) && (memReq <= 0 || avail / memReq >= d)
+//@ lemma[C07.capacity-iff-admission] memiff: forall cpuReq float64, cores int, memReq int64, avail int64, d int ::
+//@        memReq >= 0 && 1 <= d && d <= MaxInt ==> (acceptMem(cpuReq, cores, memReq, avail, d) <==> d <= capMem(cpuReq, cores, memReq, avail))
+//@ lemma[C07.capacity-drops-by-k] memdrop: forall cores int, memReq int64, avail int64, k int ::
+//@        memReq >= 1 && k >= 0 && avail >= 0 && k * memReq <= avail ==> (avail - k * memReq) / memReq == avail / memReq - k
+
+//@ func (Plugin) doGetNodeDeployCapacity
+//@   requires okInfo(nodeResourceInfo) && req != nil && req.MemRequest >= 0
+//@   ensures[C07.cap-mem]  !req.CPUBind ==> result != nil && result.Capacity == capMem(req.CPURequest, card(nodeResourceInfo.Capacity.CPUMap), req.MemRequest, nodeResourceInfo.Capacity.Memory - nodeResourceInfo.Usage.Memory)
+//@   ensures[C07.cap-cpu]  req.CPUBind ==> result != nil && result.Capacity == len(res(schedule.GetCPUPlans))
+//@                              && arg(schedule.GetCPUPlans, 0) == nodeResourceInfo && isnil(arg(schedule.GetCPUPlans, 1))
+//@                              && arg(schedule.GetCPUPlans, 2) == p.config.Scheduler.ShareBase && arg(schedule.GetCPUPlans, 3) == p.config.Scheduler.MaxShare
+//@                              && arg(schedule.GetCPUPlans, 4) == req
+//@   ensures[C07.cap-fresh] result != nil && fresh(result)
+
+//@ func (Plugin) doAllocByMemory
+//@   requires okInfo(resourceInfo) && req != nil && req.MemRequest >= 0 && deployCount >= 0 && deployCount <= 4294967296
+//@   ensures[C07.alloc-mem]  (err == nil) <==> acceptMem(req.CPURequest, card(resourceInfo.Capacity.CPUMap), req.MemRequest, resourceInfo.Capacity.Memory - resourceInfo.Usage.Memory, deployCount)
+//@   ensures[C07.alloc-mem-count] err == nil ==> len(result0) == deployCount && len(result1) == deployCount
+//@                              && forall k :: 0 <= k && k < deployCount ==> result1[k] != nil && result1[k].MemoryRequest == req.MemRequest && result1[k].CPURequest == req.CPURequest && card(result1[k].CPUMap) == 0
+//@   loop 1:
+//@     modifies nothing
+//@     invariant len(enginesParams) == len(workloadsResource) && len(enginesParams) <= deployCount
+//@     invariant (arr(workloadsResource) == 0 || (fresh(workloadsResource) && allocated(workloadsResource))) && (arr(enginesParams) == 0 || (fresh(enginesParams) && allocated(enginesParams)))
+//@     invariant workloadResource != nil && fresh(workloadResource) && allocated(workloadResource)
+//@     invariant forall k :: 0 <= k && k < len(workloadsResource) ==> workloadsResource[k] == workloadResource
+//@     decreases deployCount - len(enginesParams)
+
+//@ func (Plugin) doAllocByCPU
+//@   requires resourceInfo != nil && req != nil && deployCount >= 0
+//@   ensures[C07.alloc-cpu]  (err == nil) <==> (len(res(schedule.GetCPUPlans)) >= deployCount)
+//@   ensures[C07.alloc-cpu-args] arg(schedule.GetCPUPlans, 0) == resourceInfo && isnil(arg(schedule.GetCPUPlans, 1))
+//@                              && arg(schedule.GetCPUPlans, 2) == p.config.Scheduler.ShareBase && arg(schedule.GetCPUPlans, 3) == p.config.Scheduler.MaxShare
+//@                              && arg(schedule.GetCPUPlans, 4) == req
+//@   ensures[C07.alloc-cpu-count] err == nil ==> len(result0) == deployCount && len(result1) == deployCount
+//@   loop 1:
+//@     modifies nothing
+//@     invariant len(enginesParams) == rangeindex + 1 && len(workloadsResource) == rangeindex + 1
+//@     invariant (arr(workloadsResource) == 0 || (fresh(workloadsResource) && allocated(workloadsResource))) && (arr(enginesParams) == 0 || (fresh(enginesParams) && allocated(enginesParams)))
+
+//@ # reading the stored node records (etcd + JSON): assumed to yield records that Validate accepted
+//@ func (Plugin) doGetNodesResourceInfo
+//@   trusted
+//@   ensures err == nil ==> result0 != nil && allocated(result0) && forall n string :: n in result0 ==> allocated(result0[n]) && okInfo(result0[n])
+
+//@ func (Plugin) GetNodesDeployCapacity
+//@   # zero-capacity nodes are not offered; the total is at least every offered capacity, never negative, and
+//@   # saturates at MaxInt (no wrap-around: overflow obligations); asserted on the values handed to the response encoder
+//@   assert[C07.plugin-total] before call Decode#1: total >= 0 && forall n string :: n in nodesDeployCapacityMap ==>
+//@                                nodesDeployCapacityMap[n] != nil && nodesDeployCapacityMap[n].Capacity >= 1 && total >= nodesDeployCapacityMap[n].Capacity
+//@   loop 1:
+//@     modifies nodesDeployCapacityMap
+//@     invariant total >= 0 && fresh(nodesDeployCapacityMap) && allocated(nodesDeployCapacityMap) && nodesDeployCapacityMap != nil && req != nil && req.MemRequest >= 0
+//@     invariant forall n string :: n in nodesResourceInfos ==> allocated(nodesResourceInfos[n]) && okInfo(nodesResourceInfos[n])
+//@     invariant forall n string :: n in nodesDeployCapacityMap ==> nodesDeployCapacityMap[n] != nil && allocated(nodesDeployCapacityMap[n])
+//@                                && nodesDeployCapacityMap[n].Capacity >= 1 && total >= nodesDeployCapacityMap[n].Capacity
